@@ -224,3 +224,8 @@ func TestPairSweep(t *testing.T) {
 		Require: []string{"fits/at-limit", "reject/too-long", "reject/empty"},
 	})
 }
+
+// FuzzGenEncode: the structured generator driven by Go's coverage-guided fuzzer (thorough tier).
+func FuzzGenEncode(f *testing.F) {
+	h.FuzzSub(f, h.Sub[encCase]{Prop: "C05", Name: "encode", Gen: genEncode, Check: checkEncode})
+}
